@@ -568,6 +568,15 @@ fn run_rib_case(case: &Val) -> Val {
             }
             5 => w.table.start_deferral(fam),
             6 => changes = w.table.end_deferral(fam),
+            // [8, start]: the Restarting-Speaker deferral of ANOTHER family (IPv6 unicast; the family under test is
+            // IPv4 or EVPN) starts / ends: it may not touch the family under test (the model's operation is a no-op)
+            8 => {
+                if l[1].bool() {
+                    w.table.start_deferral(Family::IPV6)
+                } else {
+                    changes = w.table.end_deferral(Family::IPV6)
+                }
+            }
             t => panic!("verif: bad op tag {}", t),
         }
         let cv: Vec<Val> = changes.iter().map(|c| w.change_val(c)).collect();
